@@ -19,7 +19,6 @@ import (
 	"github.com/golang/snappy"
 	"github.com/metrico/qryn/writer/utils/proto/logproto"
 	"github.com/metrico/qryn/writer/utils/proto/prompb"
-	"github.com/metrico/qryn/writer/utils/unmarshal"
 	otlpCommon "go.opentelemetry.io/proto/otlp/common/v1"
 	otlpLogs "go.opentelemetry.io/proto/otlp/logs/v1"
 	otlpRes "go.opentelemetry.io/proto/otlp/resource/v1"
@@ -195,7 +194,7 @@ func c03OtlpAttrs(kvs []*otlpCommon.KeyValue) []c03Label {
 	for _, kv := range kvs {
 		v := ""
 		if kv.Value != nil {
-			v = unmarshal.SanitizeValue(kv.Value) // rendering of attribute values is outside C03; the exported function is reused
+			v = c03wRenderAny(kv.Value) // the harness' own rendering (c03w.go)
 		}
 		out = append(out, c03Label{kv.Key, v})
 	}
@@ -380,7 +379,7 @@ func (d *c03Doc) expected(ctxTtl uint16) []c03ExpStream {
 					if rec.Sev != "" {
 						m = c03MapSet(m, "level", rec.Sev)
 					}
-					add(m, []c03ExpEntry{{int64(rec.Ts), rec.Body.GetStringValue(), 0, 1}})
+					add(m, []c03ExpEntry{{int64(rec.Ts), c03wRenderAny(rec.Body), 0, 1}})
 				}
 			}
 		}
@@ -1150,7 +1149,7 @@ func (d *c03Doc) tree() string {
 			for _, s := range r.Scopes {
 				var recs []string
 				for _, rec := range s.Recs {
-					recs = append(recs, tl(tlabels(c03OtlpAttrs(rec.Attrs)), th(rec.Sev), th(rec.Body.GetStringValue()), tu(rec.Ts)))
+					recs = append(recs, tl(tlabels(c03OtlpAttrs(rec.Attrs)), th(rec.Sev), th(c03wRenderAny(rec.Body)), tu(rec.Ts)))
 				}
 				ss = append(ss, tl(tlabels(c03OtlpAttrs(s.Attrs)), tl(recs...)))
 			}
